@@ -328,3 +328,34 @@ def rule_total_timeout(ctx):
                           (bad or '') + ': a request the daemon accepts but never completes then hangs for ever - no TimeoutError, no retry, '
                           'no fail-over', loc=ctx.loc(f, c))
     return n
+
+
+def rule_height_reply(ctx):
+    """Daemon.height() returns the daemon's answer to *this* request, and the cache it leaves for cached_height() is that
+    answer too - unconditionally.  A cache that only ever moves up (or any other filter) serves a stale height after a
+    fail-over to a daemon that is behind, or after a reorganisation to a shorter chain."""
+    from .. import paths as P
+    f = ctx.func('daemon', 'Daemon.height')
+    rps = P.returns(f.node)
+    ok, why = bool(rps), 'no return'
+    for pth in rps:
+        reply = None
+        stores = [(st_, env_) for st_, env_ in pth.events if isinstance(st_, ast.Assign) and len(st_.targets) == 1
+                  and ctx.res.canon(st_.targets[0], f) == 'self._height']
+        vals = [norm(P.subst(st_.value, env_)) for st_, env_ in stores]
+        asked = [v for v in vals if v.startswith('await self._send_single(')]
+        if len(stores) != 1 or len(asked) != 1:
+            ok, why = False, f'on a path the cache is assigned {vals or "nothing"} (must be the reply, exactly once)'
+            break
+        reply = asked[0]
+        if norm(pth.value) not in (reply, 'self._height'):
+            ok, why = False, f'returns `{norm(pth.value)}`'
+            break
+        if [c for c in pth.conds if isinstance(c[0], ast.expr)]:
+            ok, why = False, f'the update is conditional: {pth.cond_texts()}'
+            break
+    ctx.check(ok, 'C18.HEIGHTREPLY', ctx.key(f, None, 'the reply is cached and returned'),
+              'height() stores the daemon\'s reply in the cache unconditionally and returns it',
+              'Daemon.height() does not store and return the reply to this request unconditionally (' + why +
+              '): a lower height from another daemon / after a reorganisation is never seen', loc=ctx.loc(f, f.node))
+    return 1
